@@ -1,5 +1,6 @@
 import EgVerif.Proofs.Mux
 import EgVerif.Gen.FactsC01
+import EgVerif.Proofs.MuxIR
 /-!
 # C01 — HTTP routing: the first rule/path matching host, path, method and headers wins
 
@@ -327,5 +328,37 @@ example : search oEx cEx { qEx with hdr := [("X-A", "1")] } = .path 0 1 { path :
 /-- only the method mismatch of entry 0.0 is seen: 405; an unknown path: 404. -/
 example : search oEx cEx { qEx with path := "/x" } = .code 405 := by decide
 example : search oEx cEx { qEx with path := "/zz" } = .code 404 := by decide
+
+/-! ### Regenerated tie by translation (`notes/IR.md`)
+
+The `…IR` definitions are re-translated on every run from the current Go bodies (go/ast → Lean,
+`harness/factextract/irlib.go`, loops as generated structural recursion); each equals the hand-written
+model function on every input and oracle. Proofs: `Proofs/MuxIR.lean`. -/
+
+/-- `muxRule.match` (`sp` = `net.SplitHostPort`, `none` on error). -/
+theorem match_regenerated_from_source (o : Oracle) (sp : String → Option String) (r : Rule) (q : Req)
+    (h : q.hostNoPort = (sp q.host).getD q.host) :
+    Gen.FactsC01IR.extractionFailed = false ∧ Gen.FactsC01IR.ruleMatchIR o sp r q = ruleMatch o r q :=
+  ⟨by decide, Mux.match_regenerated_from_source o sp r q h⟩
+
+/-- `MuxPath.matchPath`. -/
+theorem matchPath_regenerated_from_source (o : Oracle) (e : PathEntry) (q : Req) :
+    Gen.FactsC01IR.extractionFailed = false ∧ Gen.FactsC01IR.matchPathIR o e q = matchPath o e q :=
+  ⟨by decide, Mux.matchPath_regenerated_from_source o e q⟩
+
+/-- `MuxPath.matchMethod`. -/
+theorem matchMethod_regenerated_from_source (o : Oracle) (e : PathEntry) (q : Req) :
+    Gen.FactsC01IR.extractionFailed = false ∧ Gen.FactsC01IR.matchMethodIR o e q = matchMethod e q :=
+  ⟨by decide, Mux.matchMethod_regenerated_from_source o e q⟩
+
+/-- `MuxPath.matchHeaders` (both `range` loops). -/
+theorem matchHeaders_regenerated_from_source (o : Oracle) (e : PathEntry) (q : Req) :
+    Gen.FactsC01IR.extractionFailed = false ∧ Gen.FactsC01IR.matchHeadersIR o e q = matchHeaders o e q :=
+  ⟨by decide, Mux.matchHeaders_regenerated_from_source o e q⟩
+
+/-- `MuxPath.rewrite` (`none` = nil dereference of `mp.pathRE`). -/
+theorem rewrite_regenerated_from_source (σ : Nat → String → String → String) (e : PathEntry) (q : Req) :
+    Gen.FactsC01IR.extractionFailed = false ∧ Gen.FactsC01IR.rewriteIR σ e q = rewrite σ e q.path :=
+  ⟨by decide, Mux.rewrite_regenerated_from_source σ e q⟩
 
 end EgVerif.C01
